@@ -317,6 +317,7 @@ func drivePrecompile(seed uint64, n int, size int, em *Emitter) {
 		// ---------- (c) inherited precompiles 1-9: bytes allocated per call against the gas the call must pay (C20, measured)
 		stdPrecompileWork(r, em, seed, i)
 		stdPrecompileGas(r, em, seed, i)
+		stdPrecompileGas(r, em, seed, i)
 	}
 }
 
@@ -372,9 +373,34 @@ func stdPrecompileGas(r *Rng, em *Emitter, seed uint64, i int) {
 				exp[31] = 1
 			}
 		}
-		in = append(append(append(w(bl), w(el)...), w(ml)...), r.Bytes(int(bl))...)
+		baseB, modB := r.Bytes(int(bl)), r.Bytes(int(ml))
+		if r.Chance(35) {
+			// operands at the edges of the arithmetic: 0, 1, 2, all ones (with their leading zero bytes)
+			edge := func(b []byte) {
+				v := []byte{0, 1, 2, 0xff}[r.Intn(4)]
+				for k := range b {
+					b[k] = 0
+					if v == 0xff {
+						b[k] = 0xff
+					}
+				}
+				if len(b) > 0 && v != 0xff {
+					b[len(b)-1] = v
+				}
+			}
+			if r.Chance(70) {
+				edge(modB)
+			}
+			if r.Chance(50) {
+				edge(baseB)
+			}
+			if r.Chance(40) {
+				edge(exp)
+			}
+		}
+		in = append(append(append(w(bl), w(el)...), w(ml)...), baseB...)
 		in = append(in, exp...)
-		in = append(in, r.Bytes(int(ml))...)
+		in = append(in, modB...)
 		if r.Chance(10) && len(in) > 96 {
 			in = in[:96+r.Intn(len(in)-96)] // truncated: the missing part reads as zeros
 		} else if r.Chance(12) && el > 1 {
@@ -386,6 +412,45 @@ func stdPrecompileGas(r *Rng, em *Emitter, seed uint64, i int) {
 			cut := 96 + int(bl) + 1 + r.Intn(int(head)-1)
 			if cut < len(in) {
 				in = in[:cut]
+			}
+		}
+		if r.Chance(35) {
+			// header-only inputs whose PRICE is near a multiple of 2^64 (the price is computed in big integers and cut to 64
+			// bits at the end): words^2 * 8*(el-32) / 3 with words = bl/8 a power of two, or solved for el from random lengths
+			var blW, elW, mlW *big.Int
+			two64 := new(big.Int).Lsh(big.NewInt(1), 64)
+			switch r.Intn(3) {
+			case 0:
+				a := 17 + r.Intn(15)
+				b := 61 - 2*a + r.Intn(5) - 1
+				if b < 0 {
+					b = 0
+				}
+				blW = new(big.Int).Lsh(big.NewInt(8), uint(a))
+				elW = new(big.Int).Add(big.NewInt(32), new(big.Int).Lsh(big.NewInt(3), uint(b)))
+				mlW = big.NewInt(int64(1 + r.Intn(8)))
+			case 1:
+				x := int64(8 * (1 + r.Intn(64)))
+				blW, mlW = big.NewInt(x), big.NewInt(x)
+				words := big.NewInt(x / 8)
+				k := big.NewInt(int64(1 + r.Intn(3)))
+				num := new(big.Int).Mul(new(big.Int).Mul(k, two64), big.NewInt(3))
+				den := new(big.Int).Mul(new(big.Int).Mul(words, words), big.NewInt(8))
+				elW = new(big.Int).Add(big.NewInt(32), new(big.Int).Div(num, den))
+			default:
+				blW = new(big.Int).Lsh(big.NewInt(int64(1+r.Intn(255))), uint(8+r.Intn(40)))
+				elW = new(big.Int).Lsh(big.NewInt(int64(1+r.Intn(255))), uint(r.Intn(50)))
+				mlW = new(big.Int).Lsh(big.NewInt(int64(1+r.Intn(255))), uint(r.Intn(40)))
+			}
+			if r.Chance(50) {
+				elW.Add(elW, big.NewInt(int64(r.Intn(5)-2)))
+			}
+			if elW.Sign() < 0 {
+				elW.SetInt64(0)
+			}
+			in = append(append(common.LeftPadBytes(blW.Bytes(), 32), common.LeftPadBytes(elW.Bytes(), 32)...), common.LeftPadBytes(mlW.Bytes(), 32)...)
+			if r.Chance(30) {
+				in = append(in, r.Bytes(r.Intn(40))...)
 			}
 		}
 	case 9:
@@ -415,6 +480,57 @@ func stdPrecompileGas(r *Rng, em *Emitter, seed uint64, i int) {
 	}
 	em.Op("C20,C02", fmt.Sprintf("S stdgas %s %x len=%d head=%s", t.name, addrB, len(in), hexBytes(hdr)), verdict)
 	em.Count(fmt.Sprintf("stdgas:%x", addrB))
+	if addrB == 5 {
+		// MODEXP against its Lean model (M11): the price, and the output whenever the price is at most 3 000 000
+		eip := "0"
+		if t.name == "Berlin" {
+			eip = "1"
+		}
+		out := "-"
+		if g1 <= 3_000_000 {
+			func() {
+				defer func() {
+					if x := recover(); x != nil {
+						out = "panic"
+					}
+				}()
+				b, err := fp.Run(context.Background(), append([]byte{}, in...))
+				if err != nil {
+					out = "err:" + strings.ReplaceAll(err.Error(), " ", "_")
+				} else {
+					out = hexBytes(b)
+				}
+			}()
+		}
+		em.Op("C01,C02,C20", fmt.Sprintf("MX %s %s", eip, hexBytes(in)), fmt.Sprintf("gas=%x out=%s", g1, out))
+	}
+	// the result of the call too, whenever the reference's price makes it payable: output bytes and error class
+	if g2 <= 3_000_000 {
+		runSide := func(f func() ([]byte, error)) (out string) {
+			defer func() {
+				if x := recover(); x != nil {
+					out = "panic"
+				}
+			}()
+			b, err := f()
+			if err != nil {
+				return "err:" + strings.ReplaceAll(err.Error(), " ", "_")
+			}
+			return hexBytes(b)
+		}
+		o1 := runSide(func() ([]byte, error) { return fp.Run(context.Background(), append([]byte{}, in...)) })
+		o2 := runSide(func() ([]byte, error) { return upc.Run(append([]byte{}, in...)) })
+		rv := "same"
+		if o1 != o2 {
+			rv = fmt.Sprintf("result_differs_from_reference:fork=%.200s:reference=%.200s", o1, o2)
+		}
+		full := in
+		if len(full) > 700 {
+			full = full[:700]
+		}
+		em.Op("C01", fmt.Sprintf("S stdrun %s %x len=%d in=%s", t.name, addrB, len(in), hexBytes(full)), rv)
+		em.Count(fmt.Sprintf("stdrun:%x", addrB))
+	}
 }
 
 // stdPrecompileWork runs one standard precompile on a boundary-driven input that a caller could pay for and compares the bytes
